@@ -265,6 +265,45 @@ def IntSet.union (so other : IntSet) : Option IntSet :=
   | none => none
   | some c => c.merge other
 
+/-! ## histories over one set: the op language of the refinement theorem (the driver runs single-register ops through `stepOp`) -/
+
+inductive SetOp where
+  | add (k : Int)
+  | discard (k : Int)
+  | pop
+  | clear
+  | updateIter (ks : List Int)
+  | updateDict (ks : List Int)
+  | differenceUpdate (ks : List Int)
+  deriving Repr
+
+/-- what an op lets the caller see -/
+inductive Obs where
+  | none
+  | popped (k : Int)
+  | keyError
+  deriving Repr, DecidableEq
+
+def IntSet.stepOp (s : IntSet) : SetOp → Option (IntSet × Obs)
+  | .add k => (s.add k).map (·, .none)
+  | .discard k => (s.discard k).map fun r => (r.1, .none)
+  | .pop => match s.pop with
+    | none => none
+    | some .keyError => some (s, .keyError)
+    | some (.popped k s') => some (s', .popped k)
+  | .clear => some (s.clear, .none)
+  | .updateIter ks => (s.updateIter ks).map (·, .none)
+  | .updateDict ks => (s.updateDict ks).map (·, .none)
+  | .differenceUpdate ks => (s.differenceUpdate ks).map (·, .none)
+
+def IntSet.runOps (s : IntSet) : List SetOp → Option (IntSet × List Obs)
+  | [] => some (s, [])
+  | op :: ops => match s.stepOp op with
+    | none => none
+    | some (s', o) => match s'.runOps ops with
+      | none => none
+      | some (s'', os) => some (s'', o :: os)
+
 /-! ## insertion-ordered dict keys (compact dict): insertion order with deletions -/
 
 structure IntDict where
